@@ -53,6 +53,19 @@ CHECKS["C18"] = dict(
     note=COMMON_NOTE + " Interpolation accuracy and rounding in float-step arange are not decided.",
 )
 
+CHECKS["C12"] = dict(
+    level="other",
+    technique="static analysis: sibling-branch provenance (def-use chains per derivative mode), term extraction + CAS identities for the source "
+              "and kinematics, axis-role typing of the rank-8 broadcast products, call/def-use rules for the single linear system",
+    text="Decides the structural necessary conditions of the property for every background, particle set, basis and grid size: both derivative "
+         "modes differentiate the same three background profiles; the source term equals the reference form of the Boltzmann source and "
+         "vanishes identically for a homogeneous background; f_eq' is the derivative of f_eq for both statistics; the Lorentz-boost building "
+         "blocks have their defining forms; operator and source solved are those of one assembly with consistent reshapes; every factor "
+         "of the Liouville and collision products occupies the axis pair that its construction (direction, basis) dictates in both modes; "
+         "the background is boosted on a deep copy.",
+    note=COMMON_NOTE + " Convergence of finite differences to spectral derivatives and the conditioning of the dense solve are not decided.",
+)
+
 NOT_APPLICABLE = {}
 
 ENGINES = [
